@@ -34,9 +34,11 @@ TInit == i = 1 /\ bad = {} /\ fc = [f \in Features |-> 0]
 TNext == /\ i <= N
          /\ i' = i + 1
          /\ LET r  == Log[i]
-                ks == Judge(r.p, r.out, r.short) \cup (IF r.same THEN {} ELSE {"input-overwritten"})
+                ks == IF Has(r, "status") /\ r.status # 200 THEN {"served/not-served"}
+                      ELSE {(IF Has(r, "status") THEN "served/" ELSE "") \o k : k \in Judge(r.p, r.out, r.short)}
+                           \cup (IF r.same THEN {} ELSE {"input-overwritten"})
             IN /\ bad' = bad \cup {[idx |-> i, key |-> k] : k \in ks}
-               /\ fc' = IF Has(r, "self") THEN fc ELSE [fc EXCEPT ![Feature(r.p)] = @ + 1]   \* self-test pairs are not inputs
+               /\ fc' = IF Has(r, "self") \/ Has(r, "status") \/ ~r.short THEN fc ELSE [fc EXCEPT ![Feature(r.p)] = @ + 1]   \* once per distinct program
 TSpec == TInit /\ [][TNext]_<<i, bad, fc>>
 
 Report == i <= N \/ PrintT(ToJson([n |-> N, bad |-> bad, feat |-> fc]))
